@@ -234,6 +234,24 @@ def stats_ba(case, res, bi, ai, cnt):
 
 def run(ctx):
     tier = ctx.tier
+    # at most 3 replay files per signature (a systematic defect fails thousands of generated cases)
+    seen = {}
+    raw_violation = ctx.violation
+
+    def violation(sig, detail, found=True):
+        seen[sig] = seen.get(sig, 0) + 1
+        if seen[sig] <= 3:
+            return raw_violation(sig, detail, found=found)
+        return False
+    ctx.violation = violation
+    try:
+        _run(ctx, tier)
+    finally:
+        ctx.violation = raw_violation
+        ctx.coverage["violations_by_signature"] = dict(seen)
+
+
+def _run(ctx, tier):
     ncases = 200 if tier == "quick" else 3000
     if ctx.replay_case:
         cases = [ctx.replay_case["detail"]["case"]]
